@@ -91,10 +91,19 @@ def run(model: Model, rep, tier: str) -> None:
         sblocks, _ = serial.blocks(serial.result[1])
         sval = {_key(b): b.value for b in sblocks}
         tag = f"{sizes['u']}x{sizes['v']}"
-        for nth in range(-1, npairs + 3):
-            r = Run(model, "BilinearForm", "_assemble", sizes, nthreads=nth)
+        for nth, sched in [(n, s) for n in range(-1, npairs + 3)
+                           for s in (("eager", "late") if n > 0
+                                     else ("eager",))]:
+            # two extreme schedules: every worker runs to completion the
+            # moment it is started / only when it is joined.  Whatever a
+            # worker reads from the enclosing frame after its creation
+            # (loop variables captured by a closure, buffers rebound later)
+            # differs between the two.
+            r = Run(model, "BilinearForm", "_assemble", sizes, nthreads=nth,
+                    schedule=sched)
             blocks, _ = r.blocks(r.result[1])
-            cons = f"[{tag},nthreads={nth}]"
+            cons = f"[{tag},nthreads={nth}]" if sched == "eager" else \
+                f"[{tag},nthreads={nth},workers run at join]"
             main_writes = [b for b in blocks if b.thread is None]
             thr_writes = [b for b in blocks if b.thread is not None]
             # O5
@@ -190,7 +199,20 @@ def run(model: Model, rep, tier: str) -> None:
 
 
 _B = F
+_THR = """            threads = [
+                Thread(
+                    target=self._threaded_kernel,
+                    args=(data, ix, ubasis.basis, vbasis.basis, wdict, dx)
+                ) for ix in np.array_split(indices, self.nthreads, axis=0)
+            ]
+"""
 MUTANTS = [
+    ("worker share captured by a late-binding closure",
+     (_B, _THR, """            threads = []
+            for ix in np.array_split(indices, self.nthreads, axis=0):
+                threads.append(Thread(target=lambda: self._threaded_kernel(
+                    data, ix, ubasis.basis, vbasis.basis, wdict, dx)))
+"""), "C16-O1"),
     ("worker writes the transposed slot",
      (_B, "            data[i, j] = self._kernel(\n                ubasis[j],",
       "            data[j, i] = self._kernel(\n                ubasis[j],"),
@@ -238,6 +260,13 @@ MUTANTS = [
      "C16-O6"),
 ]
 TWINS = [
+    ("worker share bound through a lambda default",
+     (_B, _THR, """            threads = []
+            for ix in np.array_split(indices, self.nthreads, axis=0):
+                threads.append(Thread(
+                    target=lambda ix=ix: self._threaded_kernel(
+                        data, ix, ubasis.basis, vbasis.basis, wdict, dx)))
+"""), None),
     ("start and join in one comprehension each",
      (_B, "            for t in threads:\n                t.start()\n"
       "            for t in threads:\n                t.join()\n",
